@@ -141,22 +141,23 @@ Diagnose ==
     IF Rec.ev = "raise" THEN Rec.exc
     ELSE IF Rec.ev = "chains" THEN
         (IF ~(\A k \in DOMAIN Rec.chains : ChainFits(ChainOf(Rec.chains[k]), Rec.L)) THEN "a chain of the input does not fit the lattice (generator problem)"
-         ELSE IF Len(Rec.padded) # Len(Rec.chains) THEN "spec: OpChain.padded could not be probed on every chain"
-         ELSE "spec: OpChain.padded / __eq__ differ from identity padding")
+         ELSE IF Strict /\ (Len(Rec.padded) # Len(Rec.chains)) THEN "spec: OpChain.padded could not be probed on every chain"
+         ELSE IF Strict THEN "spec: OpChain.padded / __eq__ differ from identity padding" ELSE "a property clause of this event failed (no specific diagnostic)")
     ELSE IF Rec.ev = "site" THEN
-        (IF ~JsonIdsUnique(Rec.g) \/ ~RefsOK(GraphOfJson(Rec.g)) THEN "spec: partial graph malformed"
-         ELSE IF StatePoly(GraphOfJson(Rec.g), LoggedHC, Rec.co) # target THEN "spec: DenPreserved violated: graph + pending half-chains no longer denote the chain sum"
-         ELSE "spec: WidthBound violated: more nodes at a cut than chains")
-    ELSE IF Rec.ev = "partition" THEN "spec: logged repartition is not the repartition of the half-chains"
-    ELSE IF Rec.ev = "cover" THEN "spec: cover is not a minimum vertex cover of the site graph"
+        (IF Strict /\ (~JsonIdsUnique(Rec.g) \/ ~RefsOK(GraphOfJson(Rec.g))) THEN "spec: partial graph malformed"
+         ELSE IF Strict /\ (StatePoly(GraphOfJson(Rec.g), LoggedHC, Rec.co) # target) THEN "spec: DenPreserved violated: graph + pending half-chains no longer denote the chain sum"
+         ELSE IF Strict THEN "spec: WidthBound violated: more nodes at a cut than chains" ELSE "a property clause of this event failed (no specific diagnostic)")
+    ELSE IF Strict /\ (Rec.ev = "partition") THEN "spec: logged repartition is not the repartition of the half-chains"
+    ELSE IF Strict /\ (Rec.ev = "cover") THEN "spec: cover is not a minimum vertex cover of the site graph"
     ELSE IF Rec.ev = "graph" THEN
         (IF ~JsonIdsUnique(Rec.g) THEN "duplicate ids"
          ELSE IF ~(JsonListsOK(Rec.g) /\ ConsistentG(GraphOfJson(Rec.g))) THEN "returned graph inconsistent"
          ELSE IF GraphLength(GraphOfJson(Rec.g)) # L \/ Rec.length # L THEN "wrong length"
          ELSE IF Den(GraphOfJson(Rec.g)) # target THEN "graph does not denote the sum of the padded chains"
          ELSE IF ~Rec.cons THEN "is_consistent() false on a consistent graph"
-         ELSE IF ~UniqueOids(GraphOfJson(Rec.g)) THEN "spec: an operator id repeats on an edge"
-         ELSE (IF Pid \in {"C20", "all"} THEN "" ELSE "spec: (clause of C20) ") \o "more nodes at a cut than chains with non-zero coefficient")
+         ELSE IF Strict /\ (~UniqueOids(GraphOfJson(Rec.g))) THEN "spec: an operator id repeats on an edge"
+         ELSE IF WidthIsOwn THEN (IF Pid \in {"C20", "all"} THEN "" ELSE "spec: (clause of C20) ") \o "more nodes at a cut than chains with non-zero coefficient"
+         ELSE "a property clause of this event failed (no specific diagnostic)")
     ELSE IF Rec.ev = "mpo" THEN "MPO tensors / bond charges / node map differ from the graph"
     ELSE "unexpected event"
 
